@@ -179,4 +179,3 @@ func c19Spec(c *Ctx, fn *ssa.Function, maxChildren int) DTXSpec {
 		},
 	}
 }
-
